@@ -184,14 +184,17 @@ let run_hist hfn zh (tys : string) (vals : string) (route : string) (ops : strin
           hook, so nothing else changes *)
        let hi = int_of_string h in
        (match List.nth_opt m.tm.m_handles hi with
-        | Some td when td.h_ty = TRoot ->
+        | Some td when (match td.h_ty with TRoot | TBytes _ -> true | _ -> false) ->
+          let ty = td.h_ty in
+          let len = match ty with TBytes k -> int_of_n k | _ -> 32 in
           let b = byte_of_int ((int_of_string ("0x" ^ i)) mod 250 + 1) in
-          let c = List.init 32 (fun _ -> b) in
+          let v = List.init len (fun _ -> b) in
+          let c = pad32 v in
           let (a, hp) = hm_alloc m.hm.m_store (Leaf c) in
           let upd l x = List.mapi (fun k y -> if k = hi then x else y) l in
-          m.hm <- { m_store = hp; m_handles = upd m.hm.m_handles { h_ty = TRoot; h_back = a; h_hook = None } };
-          m.tm <- { m.tm with m_handles = upd m.tm.m_handles { h_ty = TRoot; h_back = Leaf c; h_hook = None } };
-          m.vm <- upd m.vm { vh_ty = TRoot; vh_val = VBytes c; vh_hook = None };
+          m.hm <- { m_store = hp; m_handles = upd m.hm.m_handles { h_ty = ty; h_back = a; h_hook = None } };
+          m.tm <- { m.tm with m_handles = upd m.tm.m_handles { h_ty = ty; h_back = Leaf c; h_hook = None } };
+          m.vm <- upd m.vm { vh_ty = ty; vh_val = VBytes v; vh_hook = None };
           add key "OK"; add ("spec_" ^ key) "OK"
         | _ -> add key "ERR"; add ("spec_" ^ key) "ERR")
      | L [A "iter"; A h] ->
